@@ -631,11 +631,9 @@ theorem parseIds_stream : ∀ (ids : List Nat) (f : Nat), (∀ x ∈ ids, x < 2 
       rw [take_leEnc_append, drop_leEnc_append _ _ 4 _ (Nat.le_refl _), e4 _ (hx x (List.mem_cons_self ..))]
       simp [this]
 
-/-- **the id table reads back** — for at most 16384 ids: `readUidsGids` computes the number of
-    metadata blocks as `(idCount*4 - 1)/8192 + 1` in uint16, which is right up to 16384 ids and
-    wraps beyond (see `id_blocks_wrap`) -/
+/-- **the id table reads back**, for any number of ids -/
 theorem readIdTable_written (c : Codec) (nc : Bool) (img : Dev) (loc idStart : Nat) (ids : List Nat)
-    (hwf : ∀ x ∈ ids, x < 2 ^ 32) (hn : ids.length ≤ 16384)
+    (hwf : ∀ x ∈ ids, x < 2 ^ 32)
     (hT : HoldsAt img loc (metaTable c nc (metaChunks (idStream ids))))
     (hI : HoldsAt img idStart (lookupIndex c nc loc (metaChunks (idStream ids))))
     (h64 : loc + (metaTable c nc (metaChunks (idStream ids))).length < 2 ^ 64) :
@@ -651,8 +649,9 @@ theorem readIdTable_written (c : Codec) (nc : Bool) (img : Dev) (loc idStart : N
     rw [if_neg h0, hcount, readLookup_written c nc img loc idStart _ (metaChunks_ok _) hT hI h64, metaChunks_flatten]
     exact parseIds_stream ids _ hwf (by rw [idStream_length]; omega)
 
-/-- beyond 16384 ids the uint16 arithmetic wraps: 16385 ids need 9 blocks, one is read -/
-theorem id_blocks_wrap : idBlocks 16385 = 1 ∧ (16385 * 4 + 8191) / 8192 = 9 := by decide
+/-- 16385 ids need nine metadata blocks, and nine are read (the uint16 arithmetic of the code before
+    fix 0ff62c2 gave one) -/
+theorem id_blocks_16385 : idBlocks 16385 = 9 ∧ ((16385 * 4) % 65536 + 65535) % 65536 / 8192 + 1 = 1 := by decide
 
 /-- the number of index pointers `readFragmentTable` takes for `n` fragments is the number of
     metadata blocks `writeFragmentTable` cut for them: ⌈16·n / 8192⌉ = ⌈n / 512⌉ -/
@@ -665,8 +664,8 @@ theorem frag_block_count (ents : List FragEnt) :
   · split <;> omega
   · rfl
 
-/-- … and for 1 ≤ n ≤ 16384 ids `readUidsGids`' uint16 count is the number of blocks `writeIDTable` cut -/
-theorem id_block_count (ids : List Nat) (h0 : 0 < ids.length) (hn : ids.length ≤ 16384) :
+/-- … and for n ≥ 1 ids `readUidsGids`' count is the number of blocks `writeIDTable` cut -/
+theorem id_block_count (ids : List Nat) (h0 : 0 < ids.length) :
     idBlocks ids.length = (metaChunks (idStream ids)).length ∧
     (metaChunks (idStream ids)).length = (4 * ids.length + 8191) / 8192 := by
   rw [metaChunks, chunksOf_length metaBlock (by decide) _ _ (Nat.le_refl _), idStream_length]
